@@ -108,8 +108,19 @@ def compName (d : ClassDiagram) (comp : Nat) : String :=
   | some k => k.name
   | none => ""
 
+/-- `build_class` iterates the attributes related across R102: the ones off the R103 chain as well -/
+def xclassAll (d : ClassDiagram) (c : Class) : XClass :=
+  { kl := c.kl, attrs := (looseOf d c.id).filterMap (xattr d) ++ (xclassOf d c).attrs }
+
 /-- `build_schema(m, c_c)` as a declaration list -/
 def xsdSpec (d : ClassDiagram) (comp : Nat) : XsdSpec :=
+  { types := (d.dts.filter (fun t => isGlobal d.containers t.parent)).filterMap (xtypeOf d.dts) ++
+             (d.dts.filter (fun t => containedIn d.containers comp t.parent)).filterMap (xtypeOf d.dts),
+    comp := compName d comp,
+    classes := (d.classes.filter (fun c => containedIn d.containers comp c.parent)).map (xclassAll d) }
+
+/-- the same when every attribute is on the R103 chain of its class (`d.loose = []`, see `xsdSpec_chained`) -/
+def xsdSpecChained (d : ClassDiagram) (comp : Nat) : XsdSpec :=
   { types := (d.dts.filter (fun t => isGlobal d.containers t.parent)).filterMap (xtypeOf d.dts) ++
              (d.dts.filter (fun t => containedIn d.containers comp t.parent)).filterMap (xtypeOf d.dts),
     comp := compName d comp,
